@@ -420,6 +420,12 @@ def compute_domains_gcc(domains: NDArray, parameters: NDArray) -> int:
     new_mins = np.zeros(n, dtype=np.int32)
     l = init_partial_sum(parameters[0], m, parameters[1 : 1 + m])
     u = init_partial_sum(parameters[0], m, parameters[1 + m :])
+    for i in range(n):
+        # a value whose capacity is zero cannot be taken: the filtering below assumes that no bound sits on such a value
+        domains[i, MIN] = skip_non_null_elements_right(u, domains[i, MIN])
+        domains[i, MAX] = skip_non_null_elements_left(u, domains[i, MAX])
+        if domains[i, MIN] > domains[i, MAX]:
+            return PROP_INCONSISTENCY
     min_sorted_vars = np.argsort(domains[:, MIN])
     max_sorted_vars = np.argsort(domains[:, MAX])
     nb = update_bounds(bounds, n, domains, ranks, min_sorted_vars, max_sorted_vars, l, u)
